@@ -55,4 +55,37 @@ theorem unpackRow_pack {α} (pad : α) (i : Nat) (Z : Nat → Nat → α) (bs : 
         simp
       rw [this, ih]
 
+/-- No index outside `[0, n)`: neither `index_select` nor `logits[idx]` raises. -/
+theorem idxOob_false (n : Nat) (idx : Option (List Nat))
+    (h : ∀ l, idx = some l → ∀ i ∈ l, i < n) : idxOob n idx = false := by
+  cases idx with
+  | none => rfl
+  | some l =>
+    rw [idxOob, List.any_eq_false]
+    intro i hi
+    have := h l rfl i hi
+    simp only [decide_eq_true_eq]
+    omega
+
+/-- With indices that fit the batch (`sorted_indices` one per sequence of `hyp`, all indices
+inside the batch of `batch_sizes[0] = N` sequences) the entry point does not raise an index
+error and runs the core on the `N` selected sequences. -/
+theorem packed_entry (V N T : Nat) (lsm : Nat → Nat → Rat) (bs : List Nat)
+    (sidx uidx : Option (List Nat)) (hyp : Nat → Nat → Int) (hN : bs.head? = some N)
+    (hs : ∀ s, sidx = some s → s.length = N ∧ ∀ i ∈ s, i < N)
+    (hu : ∀ u, uidx = some u → ∀ j ∈ u, j < N) :
+    seqLogProbsPacked V N T lsm bs sidx uidx hyp =
+      seqLogProbsPackedCore V N T lsm bs sidx uidx hyp := by
+  have hhead : bs.headD 0 = N := by
+    cases bs with
+    | nil => simp at hN
+    | cons b r => simpa using hN
+  have hcount : selectedCount N sidx = N := by
+    cases sidx with
+    | none => rfl
+    | some s => exact (hs s rfl).1
+  unfold seqLogProbsPacked
+  rw [idxOob_false N sidx (fun s h => (hs s h).2), hcount, hhead, idxOob_false N uidx hu]
+  simp
+
 end PdtVerif.SeqScore
